@@ -46,8 +46,19 @@ func (v *Verdict) probe(k string) {
 	}
 	v.Probes[k] = true
 }
+
+var processPolluted bool
+
 func (v *Verdict) fail(check, exp, act, format string, a ...interface{}) {
 	if v.Viol != "" {
+		return
+	}
+	if lastOpInconclusive || processPolluted {
+		// (after such a run the process still holds the goroutines involved -
+		// one dead, its siblings alive, the caller's wait abandoned: nothing
+		// later in this process is judged either)
+		processPolluted = true
+		v.probe("inconclusive-library-goroutine-ran-past-its-step-budget")
 		return
 	}
 	v.Viol = fmt.Sprintf(format, a...)
@@ -236,6 +247,10 @@ func enumCases(prop string) []*Case {
 
 func runCase(c *Case) (v *Verdict) {
 	v = &Verdict{}
+	if lastOpInconclusive {
+		processPolluted = true
+	}
+	lastOpInconclusive = false
 	defer func() {
 		// The oracles index into what the library returned. If that blows up
 		// (a result of impossible shape), it is the library's result that is
